@@ -203,6 +203,24 @@ CLAIMED["C15"] = dict(
          "the preconditions read off the wrappers by hand and exercised by 28 degenerate public calls under NUMBA_BOUNDSCHECK=1 (own numba cache); numba's compilation itself.",
     technique="source-to-Coq translator + deep embedding + proved-sound safety wp calculus with loop invariants; four-way execution correspondence",
     design="5 C15 / 10.6")
+# ---- additions of the later rounds (tie by proof, total correctness, exact statements after the oracle audit) ----
+KT = " The text of the kernel(s) is ALSO tied by proof: the term regenerated from /repo by the translator computes the functional model (Properties/%sb.v)%s."
+ADD = {
+ "C01": " EXACT coverage (C01_cover_exact): when no input is zero-length the only missing points are the microsecond before a genuine touching point; with a zero-length input this fails (C01_cover_exact_zero_length_refuted, known finding)." + KT % ("C01", ", total correctness (it terminates and returns fix_iset, no hypothesis)"),
+ "C02": " Wrapper-level endpoint, list-level commutativity and measure theorems (loss at most 1 us per junction)." + KT % ("C02", ": jitunion/jitunion_isets total, jitintersect/jitdiff partial + termination (C15b)"),
+ "C03": " Support, constructor and per-sample composition clauses are theorems too." + KT % ("C03", ": jitrestrict, jitrestrict_with_count, jitin_interval, total correctness"),
+ "C05": KT % ("C05", ": jitcount and _jitbin_array for every even bin size in ticks; odd sizes are a recorded finding (C05_odd_bin_size_refuted) unless repaired"),
+ "C06": " End-to-end and interpolate-slice theorems." + KT % ("C06", ": jitvaluefrom, no hypothesis, any mode"),
+ "C07": " Exact hypotheses for dropna (necessary and sufficient) and refutation witnesses for duplicates / 1 ns neighbours." + KT % ("C07", ": jitthreshold and jitremove_nan"),
+ "C15": " TERMINATION of all 17 kernel texts on their safety preconditions (Properties/C15b.v, total-correctness calculus Jit/Total.v with a variant per while loop).",
+ "C16": KT % ("C16", ": _cross_correlogram for every bin size below 2 s (hypothesis round9_exact, sharp: C16_kernel_text_round9_refuted)"),
+}
+TECH_ADD = {k: "; refinement proof of the translator-regenerated kernel text against the model (wp calculus with functional invariants)" + ("; total correctness via variants" if k in ("C01", "C02", "C03", "C15") else "") for k in ADD}
+for k, v in ADD.items():
+    CLAIMED[k]["text"] += v
+    CLAIMED[k]["technique"] += TECH_ADD[k]
+for k in CLAIMED:
+    CLAIMED[k]["note"] += " Oracles and known-finding keys were audited against the statement clause by clause (DESIGN.md 10.9): exemptions removed, tolerances replaced by the exact rule, keys narrowed to the recorded defect."
 REASON_TODO = "C15: the translator + safety-calculus development (DESIGN.md 5 C15 / 10.6) is still being completed; not claimed until its check runs clean"
 m = {
     "version": 1,
